@@ -631,6 +631,11 @@ class Monitor:
             return collections.OrderedDict(arg), "dict"
         if u < 0.2:
             return types.MappingProxyType(arg), "dict"
+        if u < 0.3:
+            # a mapping with __missing__: looking an absent name up would invent a value (and insert the name)
+            dd = collections.defaultdict(lambda: torch.zeros(1, dtype=torch.float64), arg)
+            self.containers.append(("argument defaultdict", dd, snap(dict(dd)), "dict"))
+            return dd, "dict"
         return arg, "dict"
 
     def op_call(self, entry=None):
